@@ -38,6 +38,6 @@ def check(ctx):
     ctx.notes.append('worst float MILLI-units observed (guard in units: 8 n^3 2^(n-1), x8 complex, x2 for agree): %s' % dict(sorted(worst.items())))
     return ctx.finish(
         rule='cases: (i) every nonsingular (A, b) of the TLC scope on Rat, every 2nd/3rd also on f64 and Complex (A + iA\'), (ii) seeded systems n = 1..8 in families dense / sparse / permuted triangular / 20-bit dense / graded / scaled / zero-or-tiny leading pivot at step s with exchange partner r, '
-             'for Rat, f64, Complex, (iii) special right-hand sides x exchange-at-every-step / unit-pivot / exactly structured matrices, (iv) extreme uniform scalings, balanced gradings, tiny column / row (floats), (v) 21 mutator sequences on one object, (vi) ill-conditioned families (cond up to 1e14) with b = A x_true and random b. Each case = solve_basic, solve_lu (each on its own clone) and their agreement. (vii) 60/500 HISTORIES (mix cases: 8 calls whose sizes zig-zag 8,1,7,2,... across Rat/f64/Complex, about 40% of them unlogged determinant/inverse/solve_lu/solve_basic/lu_decomp_in_place calls; a replay re-executes the whole history), (viii) dense-stored band / lower-triangular matrices with a small diagonal (the exchange brings up a row reaching further right). Every call is logged even when it panics or returns a result of the wrong shape (such an event is rejected, never a tool error). (ix) EXPONENT SWEEP: systems that need an exchange (zero or 2^-57 leading pivot) scaled by 2^k for k = -1000..1000 step 25 and +-511, +-512, +-513, +-537, +-538, +-600 (Complex: |k| <= 500, where Complex<f64>::abs and the textbook division still work), (x) growth adversaries (graded Wilkinson: diagonal d, strictly lower -rho d, last column ones, rho = 0.9..1000, noisy entries, also transposed / row-permuted), (xi) orders 31..129 (quick) / 9..129 (thorough): non-dominant banded, block-tridiagonal, arrow and sparse-structured systems whose exact pivots stay above 1e-8 max|a|. Float events additionally carry sunits = residual in units of eps || |L||U| || ||x|| (|L||U| from a reference elimination in double-double, logged only when no pivot choice is nearly tied), guard 64 n (x8 complex): the componentwise bound of partial pivoting without the 2^(n-1) worst-case growth; for n > 8 it is the only effective guard. Non-trivial: n >= 2. Distinct = distinct (call, element type, operand hash, outcome).',
+             'for Rat, f64, Complex, (iii) special right-hand sides x exchange-at-every-step / unit-pivot / exactly structured matrices, (iv) extreme uniform scalings, balanced gradings, tiny column / row (floats), (v) 21 mutator sequences on one object, (vi) ill-conditioned families (cond up to 1e14) with b = A x_true and random b. Each case = solve_basic, solve_lu (each on its own clone) and their agreement. (vii) 60/500 HISTORIES (mix cases: 8 calls whose sizes zig-zag 8,1,7,2,... across Rat/f64/Complex, about 40% of them unlogged determinant/inverse/solve_lu/solve_basic/lu_decomp_in_place calls; a replay re-executes the whole history), (viii) dense-stored band / lower-triangular matrices with a small diagonal (the exchange brings up a row reaching further right). Every call is logged even when it panics or returns a result of the wrong shape (such an event is rejected, never a tool error). (ix) EXPONENT SWEEP: systems that need an exchange (zero or 2^-57 leading pivot) scaled by 2^k for k = -1000..1000 step 25 and +-511, +-512, +-513, +-537, +-538, +-600 (Complex: |k| <= 500, where Complex<f64>::abs and the textbook division still work), (x) growth adversaries (graded Wilkinson: diagonal d, strictly lower -rho d, last column ones, rho = 0.9..1000, noisy entries, also transposed / row-permuted), (xi) orders 31..129 (quick) / 9..129 (thorough): non-dominant banded, block-tridiagonal, arrow and sparse-structured systems whose exact pivots stay above 1e-8 max|a|. Float events additionally carry sunits = residual in units of eps || |L||U| || ||x|| (|L||U| from a reference elimination in double-double, logged only when no pivot choice is nearly tied), guard 64 n (x8 complex): the componentwise bound of partial pivoting without the 2^(n-1) worst-case growth; for n > 8 it is the only effective guard. (xii) MIXED MAGNITUDES within one matrix: D1 A0 D2 with A0 small integers and independent power-of-two row (2^-300..2^300) and column (2^-600..2^600) scalings, judged by the scaling-invariant componentwise residual max_i |r_i| / (eps (|L||U||x|)_i) <= 64 n, (xiii) STRUCTURED small-integer matrices of order 5..12 over Rat/f64/Complex (symmetric with cancelling signed row sums incl. vanishing leading minors, skew-symmetric + diagonal, persymmetric, Toeplitz, circulant, arrowhead, singular leading block), (xiv) POISONED histories: calls that panic part-way (exact arithmetic overflowing after an exchange, wrong-length b, singular input) through every entry point, immediately followed by ordinary logged calls. Non-trivial: n >= 2. Distinct = distinct (call, element type, operand hash, outcome).',
         trusted=['TLC', 'harness/src/suites/gauss.rs projections and double-double residuals (harness/src/dd.rs)', 'Gauss.tla definitions (Leibniz determinant, Cramer) as the reference'],
         extra=dict(worst_float_milliunits=worst))
